@@ -53,8 +53,14 @@ def loops_of(src):
                             if not (isinstance(sl.lower, ast.Name) and sl.lower.id == var):
                                 lower_ok = False
                             up = sl.upper
-                            if not (isinstance(up, ast.BinOp) and isinstance(up.op, ast.Add) and isinstance(up.left, ast.Name)
-                                    and up.left.id == var and U(up.right) == U(step)) or sl.step is not None:
+                            # `i + step`, `step + i`, or the same clipped at the stop: `min(i + step, stop)`
+                            if isinstance(up, ast.Call) and U(up.func) == 'min' and len(up.args) == 2 and not up.keywords \
+                                    and U(stop) in (U(up.args[0]), U(up.args[1])):
+                                up = up.args[0] if U(up.args[1]) == U(stop) else up.args[1]
+                            plus = isinstance(up, ast.BinOp) and isinstance(up.op, ast.Add)
+                            ok = plus and ((isinstance(up.left, ast.Name) and up.left.id == var and U(up.right) == U(step)) or
+                                           (isinstance(up.right, ast.Name) and up.right.id == var and U(up.left) == U(step)))
+                            if not ok or sl.step is not None:
                                 width_ok = False
                     if slices == 0:
                         continue
